@@ -14,14 +14,14 @@ claimed = {
              ref='3 C02'),
  'C11': dict(tech='contract-based deductive verification: ghost invocation counters on the hook dispatchers, filter postconditions and send-site obligations, VCs from go/ssa, z3/cvc5',
              text='Proved for any number of registered hooks: each dispatcher call invokes every registered hook exactly once; a non-informational server message reaches every message hook exactly once and is then passed on, an informational message reaches no hook and is never passed on, environment changes are consumed and never delivered as packages, and a packet size is applied only if it fits the packet header. Proof level for these per-function statements.',
-             note='Not mechanised: the error aggregation in NextPackageUntil (all messages so far, in order, still matching the callback error), the nonlinear per-member hook count, registration concurrent with a response.',
+             note='Also proved: NextPackageUntil returns a package together with an error only for the callback\'s own bare io.EOF, handed back unchanged. Not mechanised: the rest of the error aggregation in NextPackageUntil (all messages so far, in order, wrapping the callback error), the nonlinear per-member hook count, registration concurrent with a response.',
              ref='3 C11'),
  'C12': dict(tech='contract-based deductive verification of the sequential contracts of channel creation and packet stamping (VCs from go/ssa, z3/cvc5); interleavings are outside the technique',
              text='Proved for single calls: a new channel gets an id in 0..65535 that was not a key of the channel map, is wired to its connection with well-formed queues, and a logical channel is reported as set up only after a header-only acknowledgement arrived; outgoing packets of a logical channel carry its id and consecutive packet numbers modulo 256. Proof level for these sequential per-function statements only.',
              note='The property quantifies over interleavings and demands race freedom; a deductive verifier without a concurrency model cannot decide that part, and the routing lookup in Conn.ReadFrom (map of pointers, goroutine) is outside the generator. A genuine defect (setup acknowledgement never recognised) was repaired.',
              ref='3 C12'),
  'C13': dict(tech='contract-based deductive verification of the closed-state postconditions of the channel entry points (VCs from go/ssa, z3/cvc5); blocking and time are outside the technique',
-             text='Proved for single calls: every entry point of a closed channel returns an error matching ErrChannelClosed, delivers nothing and leaves wire and queues untouched; nothing is put on the package channel of a closed channel; Close closes the package channel exactly once. Proof level for these sequential per-function statements only.',
+             text='Proved for single calls: every entry point of a closed channel returns an error matching ErrChannelClosed, delivers nothing and leaves wire and queues untouched; nothing is put on the package channel of a closed channel; Close closes the package channel exactly once; every receive NextPackageUntil performs, its drains included, waits on the caller\'s context. Proof level for these sequential per-function statements only.',
              note='Never-blocks, promptness after cancellation and bounded-time Close are liveness/timing statements over goroutine schedules and are not decided. A genuine defect (second Close panics) was repaired.',
              ref='3 C13'),
  'C14': dict(tech='contract-based deductive verification: error-path postconditions of the packet reader over a ghost transport stream with a failure flag, VCs from go/ssa, z3/cvc5',
@@ -29,8 +29,8 @@ claimed = {
              note='Time bounds (read timeout) and the absence of a spurious final DONE after a failure are whole-history statements over the reader goroutine and are not mechanised; Conn.ReadFrom itself is outside the generator (maps of pointers, goroutines).',
              ref='3 C14'),
  'C03': dict(tech='contract-based deductive verification: send-site obligations (onsend / channel invariant) on the receive dispatcher and reply-script ghosts on the consumer functions, VCs from go/ssa, z3/cvc5',
-             text='Proved for all queue states: the receive path hands the consumer only completely parsed packages or the synthetic final DONE; the synthetic DONE is created only at the end of a message that carried the end-of-message flag and only if the last delivered package was not already a final DONE; isDoneFinal is exactly DONE with status 0; NextPackage and NextPackageUntil return the last package they consumed. Proof level for these per-function statements.',
-             note='Draining after a callback error, exactly-once delivery across several request/response rounds and the interaction with Reset are whole-history statements that the contracts cannot express here (closures, goroutines); they are not mechanised.',
+             text='Proved for all queue states: the receive path hands the consumer only completely parsed packages or the synthetic final DONE; the synthetic DONE is created only at the end of a message that carried the end-of-message flag and only if the last delivered package was not already a final DONE; isDoneFinal is exactly DONE with status 0; NextPackage and NextPackageUntil return the last package they consumed; with a nil callback and after a callback error other than io.EOF NextPackageUntil returns only after a final DONE was consumed or a receive failed (the response is drained). Proof level for these per-function statements.',
+             note='Exactly-once delivery across several request/response rounds and the interaction with Reset are whole-history statements that the contracts cannot express here (closures, goroutines); they are not mechanised.',
              ref='3 C03'),
  'C08': dict(tech='contract-based deductive verification: postconditions of Login over a ghost reply script maintained by the NextPackage contract, VCs from go/ssa, z3/cvc5',
              text='Proved for every reply script: Login returns success in the plain flow only for LOGINACK(SUCCEED) followed by DONE(final), and in the encrypted flow only for a script that starts LOGINACK(NEGOTIATE), MSG(ENCRYPT4), PARAMFMT, PARAMS, DONE and ends CAPABILITY, DONE(final); weaker encryption methods are rejected; the acknowledgement filter accepts exactly LOGINACK(SUCCEED); an announced packet size is taken over only if 8 < size <= 65535. Proof level for these per-function statements (the only-if direction of the property).',
